@@ -392,6 +392,37 @@ def r8_per_document_streams(ctx):
         raise AnalysisError('only %d output-stream arguments of x12n_document calls found in the scripts' % n)
 
 
+def r9_parameters_are_read_only(ctx):
+    """the parameter object belongs to the caller and is shared by every document validated with it: the library (everything
+    but the command-line scripts and params.py itself) only reads it.  No `.set(...)` on a parameter object, no store into
+    its `params` table - also not on a copy made with copy.copy (a shallow copy shares the table, so a "local" override
+    of the character set is seen by every later document)."""
+    n = 0
+    km = KeyMaker()
+    for m in ctx.all_mods():
+        if m.name.startswith(('scripts.', 'examples.')) or m.name == 'params':
+            continue
+        for q, fn in A.all_functions(m.tree):
+            for c in ast.walk(fn):
+                recv = None
+                if isinstance(c, ast.Call) and isinstance(c.func, ast.Attribute) and c.func.attr == 'set' and len(c.args) == 2 and A.is_str(c.args[0]):
+                    recv = path_of(c.func.value) or ''
+                elif isinstance(c, (ast.Assign, ast.AugAssign, ast.Delete)):
+                    for t in (c.targets if isinstance(c, (ast.Assign, ast.Delete)) else [c.target]):
+                        if isinstance(t, ast.Subscript) and (path_of(t.value) or '').endswith('.params'):
+                            recv = path_of(t.value)
+                if recv is None:
+                    continue
+                last = recv.split('.')[-1]
+                if 'param' not in last.lower() and not recv.endswith('.params'):
+                    continue
+                n += 1
+                yield Ob(km('%s:%s' % (m.name, q), 'writes parameter object %s' % recv), False, ctx.loc(m, c),
+                         'the parameter object (or a shallow copy sharing its table) is modified during validation: every later document '
+                         'validated with the same parameters sees the change')
+    yield Ob('library code never writes a parameter object', True, 'pyx12', note='%d writes found' % n, nontrivial=False)
+
+
 def r6_map_nodes_read_only(ctx):
     from . import c16
     for o in c16.r9_nodes_immutable(ctx):
@@ -466,5 +497,6 @@ RULES = [
     Rule('C18.R5', 'fresh reader/walker/error handler/index/maps per call', r5_fresh_objects, floor=9),
     Rule('C18.R7', 'no object/class/module state is a one-shot iterator (map/filter/zip/generator)', r7_no_one_shot_state, floor=1),
     Rule('C18.R8', 'scripts: every output stream passed to x12n_document inside a loop over input files is defined in that iteration (reaching definitions)', r8_per_document_streams, floor=5),
+    Rule('C18.R9', 'the parameter object is read-only for the library (no .set, no store into its table, also through copies)', r9_parameters_are_read_only, floor=1),
     Rule('C18.R6', 'loaded map nodes keep no per-call state (shared with C16.R9)', r6_map_nodes_read_only, floor=2),
 ]
